@@ -31,7 +31,8 @@ class C20(Check):
                        "w3:JOB_ALREADY_EXISTS", "w3:PROGRAM_ALREADY_EXISTS", "w3:JOB_DOES_NOT_EXIST",
                        "w3:PROGRAM_DOES_NOT_EXIST", "w3:break-with-two-in-flight", "w3:T2-reader-death",
                        "w3:cancel-before-request-queued", "w3:cancel-with-request-out", "w3:cancel-rpc-sent",
-                       "w3:reply-for-stale-request", "w3:submit-after-stop", "w3:result-after-retry"]
+                       "w3:reply-for-stale-request", "w3:submit-after-stop", "w3:result-after-retry",
+                       "w2:out-of-order-completion", "w2:batched-job", "w2:limiter-saturated"]
 
     def setup(self) -> None:
         from simkit import repoenv
@@ -39,16 +40,19 @@ class C20(Check):
         repoenv.assert_working_tree(cirq)
         import cirq_google
         repoenv.assert_working_tree(cirq_google)
-        from checks import c20_w1, c20_w3
+        from checks import c20_w1, c20_w2, c20_w3
         self._w1 = c20_w1
+        self._w2 = c20_w2
         self._w3 = c20_w3
 
     def run_one(self, tape, ctx: Ctx) -> None:
-        w = tape.weighted([3, 6], "workload")
+        w = tape.weighted([3, 6, 2], "workload")
         if w == 0:
             self._w1.run(tape, ctx)
-        else:
+        elif w == 1:
             self._w3.run(tape, ctx)
+        else:
+            self._w2.run(tape, ctx)
 
 
 CHECK = C20()
